@@ -40,7 +40,16 @@ func VerifC19_JournalFeed() {
 	addrs := [3]string{"192.0.2.1:1", "192.0.2.2:1", ""}
 	var want []string
 	n := verifapi.Param("polls", 3)
+	for pt := range map[string]bool{"standalone": true, "webext": true} {
+		ctx.metrics.countryStats.proxies[pt] = make(map[string]bool)
+	}
 	for k := 0; k < n; k++ {
+		if k > 0 && verifapi.Bool("metrics period rolls over") { // what logMetrics does once per period
+			ctx.metrics.lock.Lock()
+			ctx.metrics.zeroMetrics()
+			ctx.metrics.lock.Unlock()
+			verifapi.Cover("a period roll-over between polls")
+		}
 		a := verifapi.Concrete(verifapi.Choice("remote address", 3))
 		var resp []byte
 		err := i.ProxyPolls(messages.Arg{Body: []byte{byte(k % 2)}, RemoteAddr: addrs[a]}, &resp)
